@@ -77,6 +77,10 @@ func readUint32(b []byte) (uint32, []byte, error) {
 	return binary.BigEndian.Uint32(head), tail, nil
 }
 
+// maxCompressionRatio is an upper bound for how much longer than its
+// compressed form a block can be (snappy stays below 22:1).
+const maxCompressionRatio = 64
+
 // decompressCellblocks decodes block stream format of hadoop.
 // The wire format is as follows:
 //
@@ -105,7 +109,11 @@ func (c *compressor) decompressCellblocks(b []byte) ([]byte, error) {
 			return nil, fmt.Errorf("failed to read uncompressed block length: %w", err)
 		}
 
-		out = slices.Grow(out, int(uncompressedBlockLen))
+		// the length comes from the network: don't reserve more than
+		// what is left of the stream could possibly decompress to
+		if n := uint64(uncompressedBlockLen); n <= maxCompressionRatio*uint64(len(b)) {
+			out = slices.Grow(out, int(n))
+		}
 
 		// read and decompress encoded chunks until whole block is read
 		var uncompressedSoFar uint32
